@@ -69,7 +69,7 @@ def judge(case):
 
 def model_a(case):
     doc = []
-    for scope, kind in zip(SCOPES, case['assign']):
+    for scope, kind in zip(case.get('scopes', SCOPES), case['assign']):
         if kind == 'real':
             doc += nest(scope, [['interface', 'X', [], [['Ev', 'in', ['void'], []], ['Ov', 'out', ['void'], []]]]])
         elif kind == 'decoy':
@@ -109,7 +109,7 @@ def judge_a(case):
 
 def model_b(case):
     doc = []
-    for scope, kind in zip(SCOPES, case['assign']):
+    for scope, kind in zip(case.get('scopes', SCOPES), case['assign']):
         if kind == 'real':
             doc += nest(scope, [['extern', 'X', f'verif::T_{scope_tag(scope)}']])
         elif kind == 'decoy':
@@ -262,6 +262,15 @@ def cases():
                 yield {'kind': 'b', 'assign': list(assign), 'scope': scope, 'spell': spell, 'mc': True}
                 if scope == ['A', 'B']:
                     yield {'kind': 'b', 'assign': list(assign), 'scope': scope, 'spell': spell, 'sem': 'STS'}
+    # namespace paths that repeat an identifier (A.A, A.B.A): outward walking must cut by position, not by name
+    rep_scopes = [[], ['A'], ['A', 'A'], ['A', 'B'], ['A', 'B', 'A']]
+    rep_spell = [['X'], ['A', 'X'], ['A', 'A', 'X'], ['B', 'A', 'X'], ['A', 'B', 'X']]
+    for assign in itertools.product(KIND3, repeat=5):
+        for scope in (['A', 'A'], ['A', 'B', 'A']):
+            for spell in rep_spell:
+                yield {'kind': 'a', 'assign': list(assign), 'scope': scope, 'spell': spell, 'dir': 'provides',
+                       'sem': 'MTS', 'scopes': rep_scopes}
+                yield {'kind': 'b', 'assign': list(assign), 'scope': scope, 'spell': spell, 'scopes': rep_scopes}
     for assign in itertools.product(KIND3, repeat=5):
         for spell in SPELL_R:
             yield {'kind': 'c', 'assign': list(assign), 'spell': spell}
